@@ -83,7 +83,7 @@ TEXTS["C13"] = {
             "account is read back through the account cache (C13_read_after_flush), and after Commit + reopen (no caches) the same bytes are read from the database (C13_read_after_commit_reopen; "
             "Proofs/LedgerReads.lean). The end-to-end refinement to a plain map across flush / "
             "commit / eviction / reopen / rollback is decided by model correspondence (every getter, QueryByPrefix and the state roots bit for bit) plus a plain-map reference monitor on the real ledger. "
-            "Two defects found here were repaired by fix: commits (QueryByPrefix overlap; AddState not loading the committed value); known findings: empty values are not persisted, Query ignores the cache before commit.",
+            "Two defects found here were repaired by fix: commits (QueryByPrefix overlap; AddState not loading the committed value); known findings: empty values are not persisted, Query ignores the cache before commit. Proved for EVERY ledger state (Proofs/LedgerRevert.lean, Props/C13b.lean): GetState / GetBalance / GetNonce answer a pure view of the ledger (getState_peek …); a write changes what exactly one key reads (C13_write_changes_exactly_one_key), the latest write wins over any sequence of writes (C13_read_after_writes); RevertToSnapshot after any sequence of journaled writes (storage writes and deletes, balance, nonce; accounts loaded, loadable or created by the write) succeeds and every storage key, balance and nonce of every account reads what it read at snapshot time, journal and revision stack restored (C13_revert_restores_every_journaled_value); nested snapshots revert independently (C13_nested_snapshots_revert_independently). Not in the journal-undo proof: SetCode.",
     "note": TB + " LevelDB, golang-lru (eviction = explicit op) are modelled; Keccak-256 is a parameter supplied by a table checked by the harness.",
     "technique": "Lean 4 theorems over an executable ledger model + differential correspondence (bit-exact roots) + plain-map reference monitor",
 }
@@ -186,7 +186,7 @@ TEXTS["C08"] = {
             "(C08_goroutines_guarded_or_reviewed, C08_reviewed_goroutines_exist, C08_recover_guards_in_place, C08_contracts_start_no_goroutine). Crash-freedom of the Go code on inputs below the model's abstraction is decided by the correspondence run: the real executor "
             "gets blocks of malformed transactions of every class (every exported contract method from the regenerated table with wrong arity/types/unknown type tags/unparsable numbers, raw and truncated payloads, arbitrary "
             "TransactionData, malformed service ids, numeric extremes, malformed groups, proofs a rule rejects with an error or with plain false); a dead or panicking process, a missing receipt or a wrong height is a violation, and "
-            "whatever the model covers must agree. Two crashes found this way were repaired by fix: commits (PostInterchainEvent through the promoted Stub surface; nil error dereferenced when a rule answers plain false).",
+            "whatever the model covers must agree. Two crashes found this way were repaired by fix: commits (PostInterchainEvent through the promoted Stub surface; nil error dereferenced when a rule answers plain false). A second search runs the harness built with Go's race detector over blocks whose IBTPs spread over the proof-verification groups with mixed verdicts (and over the malformed traffic): a reported race ON A GO MAP is an alarm (at run time a fatal error that recover cannot contain), other reports are counted in the evidence (race:not-a-map:*).",
     "note": TB + " PARTIAL: totality of the Go code itself is shown only on generated inputs; goroutine-level hangs and the signature-verification goroutines are exercised but not modelled; EVM/XVM execution is outside the op language.",
     "technique": "Lean 4 theorems on the executor-loop model (receipt count/order/height, contained panic) + table theorems over the regenerated goroutine / recover-guard inventory + differential correspondence under a malformed-input generator with crash detection",
 }
@@ -223,7 +223,7 @@ TEXTS["C01"] = {
             "afterwards or is one of three reviewed ones, every loop that writes state or posts events per map entry is a reviewed one, no reviewed entry is stale (C01_appending_map_loops_are_sorted, C01_writing_map_loops_are_reviewed, "
             "C01_reviewed_entries_exist, C01_repaired_loops_sorted); (2) the service cache: a cache that agrees with the ledger is invisible to checkIBTP's service look-ups (C01_coherent_cache_invisible), so a restarted replica (empty cache) and a long-running one decide alike; (3) a correspondence run that executes the traffic of every generator of the framework on three replicas with different local tuning (serial / parallel proof verification), "
             "one of them stopped and reopened at random places, and requires identical receipts, delivery / timeout / multi-tx metadata, block hash and all four roots. Five defects repaired by fix: commits (map-ordered notify lists and "
-            "timed-out children stored in state / metadata; an emptied timeout list read differently from cache and from disk after a restart; stale state changer).",
+            "timed-out children stored in state / metadata; an emptied timeout list read differently from cache and from disk after a restart; stale state changer). Traffic kind 'listing': a contract lists a prefix (GetAllServiceIDs) after an earlier block deleted a key under it, replica 0 restarted in between or not.",
     "note": TB + " PARTIAL: goroutine interleavings are exercised, not enumerated; the parallel executor type is not registered in this build and is not covered; XVM/EVM transactions are outside the op language; wall-clock time does not reach the compared outputs (timestamps are inputs).",
     "technique": "Lean 4 table theorems (decide +kernel over the regenerated map-range inventory) + functional model + replica/restart differential correspondence",
 }
